@@ -16,7 +16,7 @@ RULE = ('E1 enumeration: base cell (void / material) x 3 geometries x base optio
         'their own / the same / missing --lattice ranges; differential oracle: the generator '
         'expands the abbreviation itself (copy + override) and both decks are converted: same non-virtual volume '
         'ids, same membership of every volume at plane-arrangement witnesses + lattice, same compositions and '
-        'GEOMCOMP association; non-trivial = at least one override; distinct = deck text; also: identity TRCL overrides, MAT=0, importances on a data card with a zero entry at the LIKE / base position, chains of 6 / 12 / 30, LIKE copies of lattice cells')
+        'GEOMCOMP association; non-trivial = at least one override; distinct = deck text; also: identity TRCL overrides, MAT=0, importances on a data card with a zero entry at the LIKE / base position, chains of 6 / 12 / 30, LIKE copies of lattice cells, U=0 in the BUT list')
 ASSUMPTIONS = ['LIKE n BUT = copy of the card of cell n with the listed parameters replaced (MCNP manual)',
                'MAT on a void base cell is only generated together with RHO']
 
